@@ -41,6 +41,7 @@ CASES = [
      "        ret = self.r_ref(list(), save_ref)\n        ret.extend([self.r_object(bytes_for_s=bytes_for_s) for _ in range(n)])\n        return ret", ""),
     ("m-c10-child-bfs", "C10", "fire", "xdis/unmarshal.py", "        while setsize > 0:\n            ret += (self.r_object(bytes_for_s=bytes_for_s),)\n            setsize -= 1\n        return self.r_ref_insert(set(ret), i)",
      "        while setsize > 0:\n            ret += (self.r_object(bytes_for_s=self.bytes_for_s),)\n            setsize -= 1\n        return self.r_ref_insert(set(ret), i)", "child-bytes_for_s"),
+    ("m-c10-strict-decode", "C10", "fire", "xdis/unmarshal.py", "            string = unicodestring.decode(\"utf-8\", \"surrogatepass\")", "            string = unicodestring.decode()", "decode@"),
     ("s-c10-rename-local", "C10", "silent", "xdis/unmarshal.py", "        setsize = unpack(\"<i\", self.fp.read(4))[0]\n        ret, i = self.r_ref_reserve(tuple(), save_ref)\n        while setsize > 0:\n            ret += (self.r_object(bytes_for_s=bytes_for_s),)\n            setsize -= 1\n        return self.r_ref_insert(frozenset(ret), i)",
      "        count = unpack(\"<i\", self.fp.read(4))[0]\n        items, slot = self.r_ref_reserve(tuple(), save_ref)\n        while count > 0:\n            items += (self.r_object(bytes_for_s=bytes_for_s),)\n            count -= 1\n        return self.r_ref_insert(frozenset(items), slot)", ""),
     # ---------------- C02 / C03 / C04 decoder
